@@ -214,6 +214,34 @@ impl Check for C14 {
         let proj = projgen::gen_project(&mut d, ctx);
         let mut labels = proj.features();
         let mut files = proj.render();
+        if phase == "gen" && d.chance(70) {
+            // float literals with many digits: the artifacts carry them as JSON numbers, and the
+            // linked program must still contain exactly the value that was written
+            if let Some((_, main)) = files.iter_mut().find(|(p, _)| p == "main.gom") {
+                let lines: Vec<&str> = main.lines().collect();
+                if let Some(mi) = lines.iter().position(|l| l.starts_with("fn main(") && l.trim_end().ends_with('{')) {
+                    let mut extra = String::new();
+                    for _ in 0..(1 + d.below(3)) {
+                        let digits = 12 + d.below(6);
+                        let mut lit = format!("{}.", d.below(1000));
+                        for _ in 0..digits {
+                            lit.push((b'0' + d.below(10) as u8) as char);
+                        }
+                        extra.push_str(&format!("    let _ = string_println(float64_to_string({lit}));\n"));
+                    }
+                    let mut out = String::new();
+                    for (i, l) in lines.iter().enumerate() {
+                        out.push_str(l);
+                        out.push('\n');
+                        if i == mi {
+                            out.push_str(&extra);
+                        }
+                    }
+                    *main = out;
+                    labels.push("float-literals".into());
+                }
+            }
+        }
         if phase == "defect" {
             let k0 = (index % projgen::DEFECT_KINDS.len() as u64) as usize;
             for off in 0..projgen::DEFECT_KINDS.len() {
